@@ -159,9 +159,35 @@ def _biased(draw, hi):
     return out
 
 
+@st.composite
+def _elongated(draw, longs):
+    """grids with a side beyond 128 cells (coordinates next to and past the width of a signed byte), a few cells wide; the start cell is
+    given in every container a caller may use - an int8 array only when its coordinates fit one"""
+    n = draw(st.sampled_from(longs))
+    k = draw(st.sampled_from([1, 2, 2, 3]))
+    r, c = (k, n) if draw(st.booleans()) else (n, k)
+    name = draw(st.sampled_from(["gen_dfs", "gen_dfs", "gen_prim", "gen_percolation", "gen_dfs_percolation"]))
+    kw: dict = {}
+    if name in ("gen_dfs", "gen_prim"):
+        acc = draw(st.sampled_from(["none", "none", "all", "most", "frac"]))
+        if acc != "none":
+            kw["accessible_cells"] = {"all": r * c, "most": r * c - draw(st.integers(1, 5)), "frac": 0.9}[acc]
+    else:
+        kw["p"] = draw(st.sampled_from([1.0, 1.0, 0.9, 0.7] if name == "gen_percolation" else [0.0, 0.3, 1.0]))
+    near = lambda m: draw(st.sampled_from([q for q in (0, 100, 120, 126, 127, 128, 129, m - 1) if q < m]))  # noqa: E731
+    if draw(st.integers(0, 3)) != 0:
+        kw["start_coord"] = [near(r), near(c)]
+    out = {"gen": name, "r": r, "c": c, "kw": kw, "np_seed": draw(st.integers(0, 2**32 - 1)), "py_seed": draw(st.integers(0, 2**32 - 1))}
+    if "start_coord" in kw:
+        forms = [None, "tuple", "ndarray"] + (["ndarray-int8", "ndarray-int8", "ndarray-int8"] if max(kw["start_coord"]) <= 127 else [])
+        out["start_form"] = draw(st.sampled_from(forms))
+    return out
+
+
 def subs(tier: str):
     q = tier == "quick"
     return [
         Sub("biased", check, "hypothesis", strategy=lambda: _biased(10 if q else 25), examples=800 if q else 8000),
+        Sub("elongated-grids-beyond-128", check, "hypothesis", strategy=lambda: _elongated([130, 150, 129] if q else [130, 150, 129, 200, 257, 300]), examples=12 if q else 150),
         Sub("generic", check, "hypothesis", strategy=lambda: G.generator_call(lo=1, hi=10 if q else 25), examples=300 if q else 3000),
     ]
